@@ -11,6 +11,15 @@
 //	                 functions run simultaneously and Wait() returns.
 //	-mode deflimit   prints the capacity NewLimiter gives for limits below 1 (the property: 3,
 //	                 whatever GOMAXPROCS the process was started with).
+//	-mode logpanic   -deep N: the configured handler is the library's OWN goz.LogPanic(logger, N),
+//	                 with every logger shape the Logger interface accepts (pointer receiver,
+//	                 value receiver, func type, typed-nil pointer whose method does not touch the
+//	                 receiver). Functions panic with several values; the handler must not panic
+//	                 itself (it runs inside Recover's deferred function BEFORE the cleanups: a
+//	                 panicking handler kills the process / leaks slot and WaitGroup count), the
+//	                 logger must be called once per panic, afterwards n functions must be inside
+//	                 at once and Wait() must return. One process per depth (a dying process
+//	                 names the combination it was running in its last `CHILD begin` line).
 //	-mode endings    the ways a submitted function can end that depend on how the process was
 //	                 STARTED: panic(nil) is run under the GODEBUG the parent gave this process
 //	                 (unset = Go >= 1.21 semantics of this harness module, the handler sees a
@@ -103,6 +112,80 @@ func round(kind string, limit int, l *goz.Limiter) {
 	fmt.Printf("CHILD nohandler kind=%s limit=%d cap=%d inside=%d\n", kind, limit, n, got)
 }
 
+// ---- logger shapes for goz.LogPanic
+type ptrLogger struct{ n atomic.Int64 }
+
+func (l *ptrLogger) Error(args ...any) { l.n.Add(1) }
+
+type valLogger struct{ n *atomic.Int64 }
+
+func (l valLogger) Error(args ...any) { l.n.Add(1) }
+
+type funcLogger func(args ...any)
+
+func (f funcLogger) Error(args ...any) { f(args...) }
+
+var nilRecvCount atomic.Int64
+
+type nilRecvLogger struct{ unused int }
+
+func (l *nilRecvLogger) Error(args ...any) { nilRecvCount.Add(1) } // fine on a nil receiver
+
+func loggers() []struct {
+	name  string
+	l     goz.Logger
+	count func() int64
+} {
+	pl := &ptrLogger{}
+	var vn, fn atomic.Int64
+	return []struct {
+		name  string
+		l     goz.Logger
+		count func() int64
+	}{
+		{"pointer-receiver", pl, func() int64 { return pl.n.Load() }},
+		{"value-receiver", valLogger{&vn}, func() int64 { return vn.Load() }},
+		{"func-type", funcLogger(func(args ...any) { fn.Add(1) }), func() int64 { return fn.Load() }},
+		{"typed-nil-pointer", (*nilRecvLogger)(nil), func() int64 { return nilRecvCount.Load() }},
+	}
+}
+
+func logPanicRounds(deep int) {
+	vals := []any{7, errors.New("plain"), &os.PathError{Op: "open", Path: "x", Err: errors.New("inner")}, "text", (*int)(nil)}
+	for _, limit := range []int{1, 2} {
+		for _, lg := range loggers() {
+			lg := lg
+			before := lg.count()
+			fmt.Printf("CHILD begin logpanic deep=%d logger=%s limit=%d\n", deep, lg.name, limit)
+			l := goz.NewLimiter(limit).SetPanicHandler(goz.LogPanic(lg.l, deep))
+			n := chanCap(l)
+			what := fmt.Sprintf("LogPanic(%s, %d)", lg.name, deep)
+			waitOrDie(what, "submitting the panicking functions", func() {
+				for _, v := range vals {
+					v := v
+					l.Go(func() { panic(v) })
+				}
+			})
+			waitOrDie(what, "Wait() after the panicking functions", func() { l.Wait() })
+			var inside atomic.Int64
+			release := make(chan struct{})
+			waitOrDie(what, "submitting n blocking functions", func() {
+				for i := 0; i < n; i++ {
+					l.Go(func() { inside.Add(1); <-release })
+				}
+			})
+			deadline := time.Now().Add(10 * time.Second)
+			for inside.Load() < int64(n) && time.Now().Before(deadline) {
+				time.Sleep(200 * time.Microsecond)
+			}
+			got := inside.Load()
+			close(release)
+			waitOrDie(what, "Wait() after the blocking functions", func() { l.Wait() })
+			fmt.Printf("CHILD logpanic deep=%d logger=%s limit=%d cap=%d inside=%d logged=%d panics=%d\n", deep, lg.name, limit, n, got, lg.count()-before, len(vals))
+		}
+	}
+}
+
 // panicNilIsOld: does recover() return nil for panic(nil) in THIS process (GODEBUG panicnil=1)?
 func panicNilIsOld() (old bool) {
 	defer func() { old = recover() == nil }()
@@ -187,7 +270,8 @@ func waitOrDie(kind, what string, f func()) {
 }
 
 func main() {
-	mode := flag.String("mode", "nohandler", "nohandler | deflimit | endings")
+	mode := flag.String("mode", "nohandler", "nohandler | deflimit | endings | logpanic")
+	deep := flag.Int("deep", 5, "traceback depth given to goz.LogPanic (mode logpanic)")
 	flag.Parse()
 	switch *mode {
 	case "nohandler":
@@ -204,6 +288,9 @@ func main() {
 			fmt.Printf("CHILD deflimit limit=%d cap=%d gomaxprocs=%d\n", limit, chanCap(goz.NewLimiter(limit)), runtime.GOMAXPROCS(0))
 		}
 		fmt.Println("CHILD done deflimit")
+	case "logpanic":
+		logPanicRounds(*deep)
+		fmt.Println("CHILD done logpanic")
 	case "endings":
 		for _, limit := range []int{1, 2} {
 			endingsRound(limit)
